@@ -285,6 +285,19 @@ INV = [
 INNER = [("s_is_rest", "is_sub(s, src, offset as int, blen(src) as int), offset < end_offset")]
 
 
+DEFINITION_PROGRAMS = [
+    # a leading byte order mark (three bytes that are part of the file)
+    "\ufeff// a comment\nfun helper(): Int {\n  1\n}\n\nfun main(): Int {\n  let value = helper()\n  value + helper()\n}\n",
+    "\ufefflet first = 1\nlet second = first + 1\nfun f(p: Int): Int { p + second }\n",
+    # multi-byte characters and multi-line strings before the definitions and the uses
+    "let s = \"\u00e9\U0001F600\nb\"  let t = s\nfun g(x: String): String {\n  x ^ t ^ s\n}\n// \u4e16\u754c\nlet u = g(t)\n",
+    "\t\tfun tabbed(a: Int): Int {\n\t\t\ta\n\t\t}\n\u00a0let r = tabbed(1)\n",
+]
+BOUNDED.append({"name": "definition_positions", "kind": "definition-positions", "props": ["C23"], "input": DEFINITION_PROGRAMS, "n_inputs": len(DEFINITION_PROGRAMS), "timeout": 300,
+                "bound": "%d listed files (a leading byte order mark, multi-byte characters, multi-line strings, tabs): go-to-definition at every identifier; every position printed for the file lies inside it on character boundaries, names an identifier, and its line / column agree with its offsets" % len(DEFINITION_PROGRAMS),
+                "expect": {}})
+WITNESSES.append({"match": r"lex\.", "kind": "definition-positions", "props": ["C23"], "input": DEFINITION_PROGRAMS, "timeout": 300, "expect": {},
+                  "note": "go-to-definition positions in files with a byte order mark and multi-byte text"})
 import findings  # noqa: E402
 BOUNDED.append({"name": "position_finding:parse_error_of_an_imported_file", "kind": "check-json", "props": ["C23"], "n_inputs": 1, "filename": "main.gdn",
                 "input": findings.C23_IMPORT_MAIN, "extra_files": {"lib.gdn": findings.C23_IMPORT_LIB}, "expect": {"py": findings.C23_IMPORT_ORACLE},
